@@ -25,6 +25,7 @@ type verifC06 struct {
 	otherS  uint64
 	other   string
 	inConns map[string]float64
+	bad     bool // the update carries a non-positive cost (ignored wholesale since fix 9c66014)
 }
 
 func verifC06Setup() *verifC06 {
@@ -62,14 +63,18 @@ func verifC06Setup() *verifC06 {
 	s.knownConnectionCosts["C"] = kc
 	// the incoming update: every field arbitrary
 	v.inConns = map[string]float64{}
+	anyBad := false
 	for _, k := range []string{"A", "B", "C"} {
 		if k != v.origin {
-			verifapi.PutIf(v.inConns, k, verifapi.Float(), verifapi.Bool())
+			c, p := verifapi.Float(), verifapi.Bool()
+			verifapi.PutIf(v.inConns, k, c, p)
+			anyBad = verifapi.Any(anyBad, verifapi.All(p, c <= 0))
 		}
 	}
 	var conns map[string]float64
 	if verifapi.Bool() {
 		conns = v.inConns
+		v.bad = anyBad
 	} // else nil map (JSON null / field absent)
 	v.ri = &routingUpdate{
 		NodeID:             v.origin,
@@ -135,6 +140,15 @@ func Verif_C06_step() {
 	// the other node's record is never touched, whatever arrives
 	on := s.knownNodeInfo[v.other]
 	verifapi.Assert("unrelated-node-untouched", verifapi.All(on != nil, on.Epoch == v.otherE, on.Sequence == v.otherS))
+
+	if v.bad {
+		// 0. an update carrying a non-positive cost is ignored wholesale (it could wedge the table computation)
+		verifapi.Cover("non-positive-cost")
+		verifapi.Assert("bad-cost-update-changes-nothing", verifapi.All(v.costsUnchanged(), v.infoUnchanged()))
+		verifapi.Assert("bad-cost-update-not-relayed", nOut == 0)
+		verifapi.Assert("bad-cost-update-no-shutdown", s.context.Err() == nil)
+		return
+	}
 
 	if v.origin == "A" {
 		// 5. updates naming ourselves never modify our picture
@@ -231,6 +245,7 @@ func Verif_C06_twice() {
 	verifapi.Assume(v.origin != "A")
 	verifapi.Assume(!v.seen)
 	verifapi.Assume(v.ri.SuspectedDuplicate == 0)
+	verifapi.Assume(!v.bad)
 	second := *v.ri
 	second.Connections = verifapi.DeepCopy(v.ri.Connections)
 	s.handleRoutingUpdate(v.ri, v.recv)
